@@ -293,6 +293,7 @@ func checkProgram(ps emitbatch.ProgSpec, bt batch, ns *rig.NatsServer) *progResu
 			}
 		}
 		res.Violations = append(res.Violations, violation{sig, what, w})
+		atomic.AddInt32(&violationsSeen, 1)
 	}
 	prefix := "vh/gen/" + ps.Sub + "/"
 	var pkgs []*genreg.Package
@@ -497,6 +498,7 @@ func checkService(prog *idl.Program, f *idl.File, svc *idl.Service, gs *genreg.S
 }
 
 var manyConnFailed int32
+var violationsSeen int32
 var forceReplySize int // > 0: the next call's handler returns a string/binary of this many bytes
 var oversizePhases, oversizeFailed int32
 
@@ -939,6 +941,9 @@ func manyConnections(prog *idl.Program, svc *idl.Service, gs *genreg.Service, tw
 
 // runCall performs one call and returns the outcome class exercised.
 func runCall(prog *idl.Program, svc *idl.Service, mi methodInfo, gm reflect.Value, token, legName string, rng *rand.Rand, exp *expectation, leg *rig.RPCLeg, res *progResult, addV func(string, string, interface{})) string {
+	if atomic.LoadInt32(&violationsSeen) >= 12 {
+		return "" // a refuted tree costs a time-out per lost call: a dozen witnesses are enough
+	}
 	m := mi.m
 	mt := gm.Type()
 	wit := func(extra map[string]interface{}) map[string]interface{} {
